@@ -55,7 +55,7 @@ def explore_config(prop: str, workers: int, max_fails: int, max_dev: int, max_de
                 seen.add(k)
                 acc.states += 1
                 nxt.append(h)
-                if acc.transitions % 2003 == 1:
+                if len(nxt) == 3 or acc.transitions % 2003 == 1:
                     acc.sample({"workers": workers, "max_fails": max_fails, "history": _brief(h), "trace_tail": [list(map(str, e)) for e in env.events[-8:]]})
         frontier = nxt
         depth += 1
